@@ -16,7 +16,7 @@ from ..core import rule, AnalysisError
 from ..engine import rx, flow, cfg as cfgmod
 from ..engine import pattern as P
 from ..engine.facts import dotted, const, src, walk_func, str_value, enclosing_stmt, ancestors
-from .common import calls, in_try_handling, contains, stmt_nodes, pn, access_paths, assigned_from, guards_of, arms, branch_paths, return_leaves
+from .common import calls, in_try_handling, contains, stmt_nodes, pn, access_paths, assigned_from, guards_of, arms, branch_paths, return_leaves, resolve, guard_implies
 
 
 def _precedence(e):
@@ -201,7 +201,13 @@ def module_encoding(ctx):
     ctx.check(bool(ml) and ml.group(1) == "koi8-r", "template-comment-form", db.where(lre), "the template coding regex does not recognise the documented '## -*- coding: x -*-' form", "recognises ## -*- coding: x -*-")
     # ModuleInfo.source decodes with the module's recorded encoding
     ms = db.func("template.ModuleInfo.source")
-    ctx.check(src(ms).count("self.module._source_encoding") >= 3, "source-decoding", db.where(ms), "Template.source does not decode with module._source_encoding", "source decoded with _source_encoding")
+    enc_ = pn(ms, 0) + ".module._source_encoding"
+    decs = [c for c in walk_func(ms) if isinstance(c, ast.Call) and isinstance(c.func, ast.Attribute) and c.func.attr == "decode"]
+    good = bool(decs) and all(len(c.args) >= 1 and src(resolve(ms, c.args[0])) == enc_ and guard_implies(guards_of(c, ms), enc_) for c in decs)
+    # what is read from the template file is bytes: it is one of the values decoded
+    rd = [c for c in walk_func(ms) if isinstance(c, ast.Call) and (dotted(c.func) or "").endswith("read_file")]
+    good = good and bool(rd) and any(any(l_ is rd[0] for l_ in arms(resolve(ms, c.func.value))) for c in decs)
+    ctx.check(good, "source-decoding", db.where(ms), "Template.source does not decode with module._source_encoding", "every decode in ModuleInfo.source uses module._source_encoding under a test that it is set (%d decodes)" % len(decs))
 
 
 @rule("C18.render-encoding", min_instances=6)
@@ -258,8 +264,26 @@ def render_encoding(ctx):
             # template built with output_encoding=<option> => render() is str|bytes
             maybe_bytes = any(any(k.arg == "output_encoding" and not (isinstance(k.value, ast.Constant) and k.value.value is None) for k in t_.keywords) for t_ in calls(cm, "Template"))
             recv = src(c.func.value)
-            binary = ".buffer" in recv or "'wb'" in recv or '"wb"' in recv or "'ab'" in recv
+            # the stream written to: an open(...) call, directly or through the name a `with`/assignment binds
+            op = c.func.value
+            if isinstance(op, ast.Name):
+                for w_ in walk_func(cm):
+                    if isinstance(w_, ast.With):
+                        for it_ in w_.items:
+                            if isinstance(it_.optional_vars, ast.Name) and it_.optional_vars.id == op.id:
+                                op = it_.context_expr
+                    elif isinstance(w_, ast.Assign) and isinstance(w_.targets[0], ast.Name) and isinstance(op, ast.Name) and w_.targets[0].id == op.id:
+                        op = w_.value
+            mode = None
+            if isinstance(op, ast.Call) and dotted(op.func) == "open":
+                mode = op.args[1] if len(op.args) > 1 else next((k.value for k in op.keywords if k.arg == "mode"), None)
+            binary = ".buffer" in recv or (isinstance(mode, ast.Constant) and isinstance(mode.value, str) and "b" in mode.value)
             guarded = any(isinstance(a, ast.If) and ("isinstance(%s" % nm in src(a.test) or "output_encoding" in src(a.test)) for a in ancestors(c))
+            if isinstance(mode, ast.IfExp) and "output_encoding" in src(mode.test) and isinstance(mode.body, ast.Constant) and isinstance(mode.orelse, ast.Constant):
+                pos = not (isinstance(mode.test, ast.UnaryOp) and isinstance(mode.test.op, ast.Not))
+                b_, t_ = (mode.body, mode.orelse) if pos else (mode.orelse, mode.body)
+                # the mode follows the encoding: binary exactly when the rendered value is bytes
+                guarded = guarded or ("b" in str(b_.value) and "b" not in str(t_.value))
             key = "cmd:%s" % ("stdout" if "stdout" in recv else "file")
             if maybe_bytes and not binary and not guarded:
                 ctx.violation("type:cmd.cmdline#bytes-to-text-stream:%s" % ("stdout" if "stdout" in recv else "file"), db.where(c),
